@@ -67,6 +67,29 @@ func scenarioC07(r *Run) {
 		rc.SetPayload(append([]byte{}, spec.Payload...))
 	}
 	vs := r.verifiersFor(spec, false)
+	if t.Bool(1, 4, "c07.trial") {
+		// a receiver that tries its trusted keys one after the other: first a
+		// verifier of another key (and possibly another algorithm, other
+		// external data), which must be turned down - and must leave the
+		// decoded message fit for the attempt with the right key
+		tv := append([]cose.Verifier{}, vs...)
+		i := t.Choose(len(tv), "c07.trial.i")
+		keys := keysOf(spec)
+		if o := otherKey(t, keys[i], t.Bool(1, 2, "c07.trial.samealg")); o != nil {
+			tv[i] = r.verifierFor(o, false)
+			ext := spec.External
+			if t.Bool(1, 4, "c07.trial.ext") {
+				ext = genExternal(t)
+			}
+			terr := r.VerifyLib(rc, ext, tv...)
+			r.Fired("verifier.trial-with-other-key")
+			r.Check()
+			if terr == nil {
+				r.Fail("verifies-under-another-key/"+spec.Kind.String(), "Verify returned nil with the verifier of another key (%s) at position %d\nwire: %s", o.Name, i, hexShort(w.B))
+				return
+			}
+		}
+	}
 	r.Check()
 	if err := r.VerifyLib(rc, spec.External, vs...); err != nil {
 		r.Fail("foreign-message-does-not-verify/"+spec.Kind.String(), "a message signed by an independent implementation over its wire bytes does not verify: %v\nwire: %s\nspec: %s", err, hexShort(w.B), spec)
